@@ -48,6 +48,7 @@ Section Walk2.
   Hypothesis P_set_kctx : forall s c, P s (set_kctx s c).
   Hypothesis P_advance : forall s d, P s (advance s d).
   Hypothesis P_cancel_root : forall s c, P s (cancel_root s c).
+  Hypothesis P_set_nilmode : forall s m, P s (set_nilmode s m).
 
   Ltac tr := eapply P_trans.
 
@@ -127,7 +128,7 @@ Section Walk2.
   Lemma V_reset_core s k cond : P s (fst (reset_core repaired s k cond)).
   Proof.
     unfold reset_core. destruct (lookup (kmap s) k) as [r|] eqn:Ek; [|apply P_refl]. destruct (negb (cond_match cond k)); [apply P_refl|].
-    set (s1 := cancel_inst s (rcancel (getr s r))). set (w0 := if has_ctx s1 || fx_reset repaired then _ else _).
+    set (s1 := cancel_inst s (rcancel (getr s r))). match goal with |- context [new_record s1 k _ ?w] => set (w0 := w) end.
     assert (K1 : lookup (kmap s1) k = Some r) by (unfold s1; rewrite kmap_cancel_inst; exact Ek).
     pose proof (P_new_same s1 k r (rlin (getr s r)) w0 K1) as G.
     assert (L : lookup (kmap (fst (new_record s1 k (rlin (getr s r)) w0))) k = Some (snd (new_record s1 k (rlin (getr s r)) w0)))
@@ -205,7 +206,17 @@ Section Walk2.
     - apply V_reset_routine. - apply V_restart_routine. - apply V_reset_all. - apply V_restart_all.
     - apply V_add_key_ref. - apply V_release_start. - apply V_release_section. - apply V_rc_remove_key.
     - apply V_proceed. - apply V_wake. - apply V_fn_return. - apply P_bookkeep. - apply P_advance. - apply V_timer_cb.
-    - apply P_cancel_root.
+    - apply P_cancel_root. - apply P_set_nilmode.
+  Qed.
+  (* every event except the bookkeeping section *)
+  Theorem V_step_nobook s e : (forall i, e <> EBook i) -> P s (step repaired s e).
+  Proof.
+    intros Hb. destruct e; cbn [step].
+    - apply V_set_context. - apply V_set_key. - apply V_remove_key. - apply V_sync_keys. - apply P_refl.
+    - apply V_reset_routine. - apply V_restart_routine. - apply V_reset_all. - apply V_restart_all.
+    - apply V_add_key_ref. - apply V_release_start. - apply V_release_section. - apply V_rc_remove_key.
+    - apply V_proceed. - apply V_wake. - apply V_fn_return. - exfalso. now apply (Hb i). - apply P_advance. - apply V_timer_cb.
+    - apply P_cancel_root. - apply P_set_nilmode.
   Qed.
   Lemma V_run_wakes s n : P s (run repaired s (wakes n)).
   Proof.
